@@ -1,6 +1,6 @@
 (* C17 — property theorems only: each restates the full statement and is closed by the lemma proved in Proofs/. *)
 From Coq Require Import ZArith List Bool.
-From NPS Require Import ListAux PySlice NumpySem Scatter BuildIdx XorBroadcast View Index Assign Reduce Scan RaOps Heap Hash HashRun BitArr RLE RLEOps RLE2d DataClass RowsSpec AssignSpec MapSpec Denote RLEMisc BinaryProof RL2Proof RL2Col RL2Ravel RL2Elem RL2Argmax MatrixDecode ColProof RL2ColSum RL2ColCounts RL2Intervals RL2Range RL2RangeStep.
+From NPS Require Import ListAux PySlice NumpySem Scatter BuildIdx XorBroadcast View Index Assign Reduce Scan RaOps Heap Hash HashRun BitArr RLE RLEOps RLE2d DataClass RowsSpec AssignSpec MapSpec Denote RLEMisc BinaryProof RL2Proof RL2Col RL2Ravel RL2Elem RL2Argmax MatrixDecode ColProof RL2ColSum RL2ColCounts RL2Intervals RL2Range RL2RangeStep RL2RangeOpen.
 Import ListNotations.
 Open Scope Z_scope.
 
@@ -153,6 +153,45 @@ Theorem C17_rl2_col_range_pos_partial :
            (rl2_decode (of_runs rows)).
 Proof. exact rl2_col_range_pos_partial. Qed.
 Print Assumptions C17_rl2_col_range_pos_partial.
+
+Theorem C17_rl2_col_range_pos :
+  forall (rows : list (list Z * list Z)) (sl : pyslice),
+       1 <= step_of sl ->
+       Forall (fun p : list Z * list Z => canon Z (fst p) (snd p) /\ 0 < py_count (zsum (fst p)) sl) rows ->
+       exists y : rl2,
+         rl2_col_range (of_runs rows) sl = Ok y /\
+         rl2_decode y = map (fun d : list Z => py_getslice 0 d sl) (rl2_decode (of_runs rows)).
+Proof. exact rl2_col_range_pos. Qed.
+Print Assumptions C17_rl2_col_range_pos.
+
+Theorem C17_rl2_col_range_neg_inside :
+  forall (rows : list (list Z * list Z)) (a b k : Z),
+       0 <= b < a ->
+       1 <= k ->
+       Forall (fun p : list Z * list Z => canon Z (fst p) (snd p) /\ a < zsum (fst p)) rows ->
+       exists y : rl2,
+         rl2_col_range (of_runs rows) {| sl_start := Some a; sl_stop := Some b; sl_step := Some (- k) |} =
+         Ok y /\
+         rl2_decode y =
+         map
+           (fun d : list Z =>
+            let w := rev (ztake (a - b) (zdrop (b + 1) d)) in
+            map (fun q : Z => nth (Z.to_nat (q * k)) w 0) (ap 0 (StepProof.cdiv k (a - b)) 1))
+           (rl2_decode (of_runs rows)).
+Proof. exact rl2_col_range_neg_inside. Qed.
+Print Assumptions C17_rl2_col_range_neg_inside.
+
+Theorem C17_rl2_col_range_neg :
+  forall (rows : list (list Z * list Z)) (sl : pyslice),
+       step_of sl <= -1 ->
+       Forall
+         (fun p : list Z * list Z =>
+          canon Z (fst p) (snd p) /\ inside_neg (zsum (fst p)) sl /\ 0 < py_count (zsum (fst p)) sl) rows ->
+       exists y : rl2,
+         rl2_col_range (of_runs rows) sl = Ok y /\
+         rl2_decode y = map (fun d : list Z => py_getslice 0 d sl) (rl2_decode (of_runs rows)).
+Proof. exact rl2_col_range_neg. Qed.
+Print Assumptions C17_rl2_col_range_neg.
 
 Theorem C17_col_range_row_is_start_to_end :
   forall (ev vs : list Z) (a b : Z),
